@@ -56,3 +56,30 @@ for _i in range(1, 21):
     _id = "C%02d" % _i
     if _id not in META and _id not in NOT_APPLICABLE:
         NOT_APPLICABLE[_id] = PENDING
+
+MUX_REAL = ["gohlslib Muxer (segmenter, streams, parts, server, pkg/storage RAM or real files, pkg/playlist encoder)",
+            "mediacommon fmp4/mpegts writers inside the muxer; mediacommon fmp4.Parts / mpegts.Reader as decoders in the oracle"]
+MUX_STUB = ["HTTP server side: Muxer.Handle is called directly with an in-memory ResponseWriter (no net/http.Server, no sockets)",
+            "wall clock of the muxer: the ntp argument chosen by the generator", "access units: minimal synthetic bitstreams"]
+MUX_ASSUME = COMMON_ASSUME + [
+    "mediacommon decoders are shared with the library: a defect that cancels out on both sides is invisible",
+    "playlists are read with the harness's own strict M3U8 reader, never with pkg/playlist",
+    "muxer inputs: no B-frame reordering (PTS = DTS), ClockRate equal to the codec's natural timescale",
+]
+MUX_RULE = ("each run draws a muxer configuration (variant, track set and order, codecs, SegmentCount, SegmentMinDuration, "
+            "PartMinDuration, RAM or Directory) and a write script (per-track timelines, key-frame placement, parameter changes, "
+            "cross-track interleaving, NTP values) from one seeded tape; after every Write the harness observes the muxer through "
+            "Handle at rest. Non-trivial = content became available and the playlist changed at least once; distinct = distinct "
+            "signatures of configuration + write script + scheduler decisions. ")
+
+META["C04"] = {"level": "exploration", "rule": MUX_RULE + "C04 profile: 200-1500 writes with a rotation every few writes so the window slides many times.",
+               "real": MUX_REAL, "stub": MUX_STUB, "assumptions": MUX_ASSUME}
+META["C05"] = {"level": "exploration", "rule": MUX_RULE + "C05 profile: every listed URI fetched when first listed, at every playlist change while listed, and after leaving the window; unknown URIs probed.",
+               "real": MUX_REAL, "stub": MUX_STUB, "assumptions": MUX_ASSUME}
+LEVEL_TEXT["C04"] = ("Seeded exploration of long write histories; every consecutive pair of playlists of every stream is checked "
+                     "against the RFC 8216 evolution rules and all streams are compared at every rest point. Sampling of histories.")
+LEVEL_TEXT["C05"] = ("Seeded exploration of write histories on RAM and disk storage; every advertised URI is fetched when first and "
+                     "while listed (byte identity), parts are compared with their segment, expired and unknown URIs are probed. Sampling.")
+for _k in list(NOT_APPLICABLE):
+    if _k in META:
+        del NOT_APPLICABLE[_k]
